@@ -1,16 +1,24 @@
 from pyvc import runner
-from bounded import keyring
+from bounded import keyring, keyring_step
+from contracts import keyring as kr
 
 PID = 'C19'
 
 
 def items():
-    return []
+    # the per-call clauses within the verifier's reach: selection through the alias layers (layers and key table abstract maps)
+    return kr.scenarios()
 
 
 def run(tier='quick', seed=0, only=None):
-    return runner.run_property(PID, [], bounded=[keyring.component], tier=tier, seed=seed, level='exploration',
-                               trusted_base=['the class invariant I(keyring) stated in bounded/keyring.py', 'CPython'],
-                               assumptions=['bounded stand-in only: the layered alias index (deque of dicts, re-sorted per alias) needs quantified '
-                                            'array-of-map invariants that the VC generator does not offer; nothing is claimed beyond the enumerated histories'],
-                               explanation='runtime class invariant checked after every step of every load/unload history in the stated bound')
+    its = [i for i in items() if not only or only in i.cid]
+    return runner.run_property(PID, its, bounded=[] if only else [keyring.component, keyring_step.component], tier=tier, seed=seed, level='exploration',
+                               trusted_base=['the class invariant I(keyring) stated in bounded/keyring.py and bounded/keyring_step.py', 'CPython'],
+                               assumptions=['bounded stand-ins only for the index itself: the layered alias index (deque of dicts, re-sorted per alias) needs '
+                                            'quantified array-of-map invariants that the VC generator does not offer',
+                                            'keyring-histories: nothing is claimed beyond the enumerated histories',
+                                            'keyring-invariant-is-inductive: the invariant is checked to be preserved by load/unload from EVERY state of a '
+                                            'bounded shape (not only reachable ones), so history length is unbounded there but the shape (universe of 6 key '
+                                            'objects, layer arrangements) is not; natively executed, not a proof'],
+                               explanation='runtime class invariant: (1) checked after every step of every load/unload history in the stated bound, '
+                                           '(2) checked to be inductive over a bounded state shape')
